@@ -123,6 +123,10 @@ func (e *h01Env) h04Restored(what string) {
 	vsymAssert(!vt.m1004, what+": focus reporting is off")
 	vsymAssert(vt.autowrap, what+": auto-margin is on again")
 	vsymAssert(vt.titleDepth == 0, what+": a saved title has been restored")
+	if e.t.saveTitle != "" && e.t.restoreTitle != "" && hEnv("TCELL_ALTSCREEN") != "disable" {
+		// the title the terminal had before the application started (empty in the reference terminal)
+		vsymAssert(vt.title == "", what+": the restored title is the one saved at start, not the application's")
+	}
 	vsymAssert(!e.tty.running, what+": the tty has been stopped")
 	_ = t
 }
